@@ -101,7 +101,8 @@ def run(run):
         fails += ck.failed
     finish_engine(E2, run)
     run.trust('np.argsort(kind="stable") returns the stable sorting permutation; num_index / subset_descriptor contracts (C10 K6/K7) '
-              'are uninterpreted here and checked by the bounded tier')
+              'are uninterpreted at these call sites; their own bodies are under contract in C10 (C10/num_index, C10/bool_index, '
+              'C10/subset_descriptor: discharged for all columns / values / index sequences)')
     finish(run, fails, 'C11')
     run.explanation = ('engine A: sort_by and subset_* use ONE permutation / selection for measurements and descriptors and pass the rest '
                        'through (all inputs); bounded tier: model-based histories against an abstract view with ghost ids')
